@@ -68,6 +68,12 @@ def run(eng, ctx):
 
     # ---------------- D1 serialize
     ctx.rule("C07.D1", "serialize = HDR ‖ len2bytes(P) ‖ P ‖ crc2bytes(HDR ‖ len2bytes(P) ‖ P)")
+    # a memoising decorator keys its cache by argument equality: harmless while messages compare by identity, wrong as soon as the class
+    # defines an equality weaker than the payload
+    memo = [d for d in ser.decorators if any(x in d for x in ("lru_cache", "cache", "cached_property", "memo"))]
+    eqs = [f2 for f2 in eng.repo.methods(mod, cls) if f2.name in ("__eq__", "__hash__")]
+    if memo:
+        ctx.check(not eqs, "C07.D1", ser.qualname, f"@{memo[0]}", expected="not memoised, or messages compared by identity", found=f"memoised while the class defines {', '.join(f2.name for f2 in eqs)}: an equal-but-different message gets a cached frame" if eqs else "memoised, identity-keyed", **eng.loc(ser, ser.node))
     se = eng.symeval(ser.qualname)
     rets = [e for e in se.effects if e.kind == "return"]
     cat = CatContext()
